@@ -45,6 +45,8 @@ Next ==
        /\ obs' = [canrb |-> (refStack # << >>)] @@ L
        /\ IF L.kind = "init" THEN ref' = EmptyFn /\ refStack' = << >>
           ELSE IF L.kind = "set" THEN ref' = VO!RefApply(ref, L.ch) /\ refStack' = Append(refStack, ref)
+          \* the device restarted empty and was connected again: nothing changes in the configuration
+          ELSE IF L.kind = "resync" THEN UNCHANGED <<ref, refStack>>
           ELSE IF refStack # << >> THEN ref' = refStack[Len(refStack)] /\ refStack' = SubSeq(refStack, 1, Len(refStack) - 1)
           ELSE UNCHANGED <<ref, refStack>>
 
@@ -66,10 +68,18 @@ Clauses ==
       C03_JsonGetIsSequential |-> (IsOp /\ obs.kind = "set") => NoKeys(obs.getjson) = ref,
       \* every Get pattern selects exactly the reference leaves it names, at element boundaries
       C03_PatternGets |-> IsOp => \A pat \in DOMAIN obs.pat : pat \in PU_Patterns => obs.pat[pat] = Selected(pat, obs.get),
+      \* however the request addresses the target and the path (target in the prefix, only a prefix, the path split
+      \* over prefix and path), it reads the same leaves
+      C03_GetAddressing |-> IsOp => \A v \in DOMAIN obs.via : obs.via[v] = obs.get,
+      C03_PatternAddressing |-> IsOp => \A pat \in DOMAIN obs.patp : pat \in DOMAIN obs.pat => obs.patp[pat] = obs.pat[pat],
       \* a rollback of the latest change restores exactly the state before it
       C06_RollbackRestoresData |-> (IsOp /\ obs.kind = "rollback") => (obs.get = ref /\ NoKeys(obs.getjson) = ref),
       \* once applied the device holds the same configuration
       C04_DeviceIsSequential |-> (IsOp /\ obs.idle) => obs.dev = ref,
+      \* after the device restarted empty and was connected again, what was applied is pushed again: the device holds
+      \* the stored configuration once the target is reported synchronized
+      C04_ResyncRestores |-> (obs.kind = "resync" /\ obs.idle /\ obs.txstate = "SYNCHRONIZED") => obs.dev = ref,
+      C04_ResyncCompletes |-> (obs.kind = "resync" /\ obs.idle) => obs.txstate = "SYNCHRONIZED",
       \* the document the plugin accepted is, leaf for leaf, what becomes readable
       C05_DocumentIsReadable |-> (IsOp /\ obs.hasdoc) => NoKeys(obs.doc) = obs.get ]
 
